@@ -2237,4 +2237,12 @@ theorem c10_shape_router_Router_Closed_b4 :
    ["r.Lock", "defer:r.Unlock", "return:r.isClosed"] := rfl
 
 
+theorem c10_shape_router_Router_Pause_b7d :
+    Shapes.network_router_Router_Pause_b7d =
+   ["r.Lock", "if:(r.paused==nil)", "assign:r.paused=make(conv)", "r.Unlock"] := rfl
+
+theorem c10_shape_router_Router_Unpause_b7d :
+    Shapes.network_router_Router_Unpause_b7d =
+   ["r.Lock", "if:(r.paused!=nil)", "close:paused", "assign:r.paused=nil", "r.Unlock"] := rfl
+
 end C10
